@@ -266,6 +266,14 @@ def run(report, p):
         tests = [t for t in g.nodes if t.kind == "test" and g.dominates(t, cn)]
         uses_map = any("failures" in norm(t.ast) for t in tests)
         r5.check(uses_map, dh, c, "the exit-12 decision does not depend on the recorded failures")
+        for t in tests:
+            for x in ast.walk(t.ast):
+                if isinstance(x, ast.Name) and isinstance(x.ctx, ast.Load) and x.id not in ("len", "set", "list", "sorted", "any", "all", "sum"):
+                    okname = "fail" in x.id
+                    for o in pr.origins(x, dh):
+                        if any(is_call(s2, "builtin:sorted") or (s2[0] == "op" and s2[1].startswith("collect")) for s2 in subterms(o)):
+                            okname = True
+                    r5.check(okname, dh, t.ast, f"the exit-12 decision additionally depends on `{x.id}`, which is neither the failure bookkeeping nor the list of verified formats: detected failures can be swallowed", construct=f"exit-12 guard uses {x.id}")
         st = g.by_ast.get(id(_stmt(c)))
         var = _stmt(c).targets[0].id if isinstance(_stmt(c), ast.Assign) and isinstance(_stmt(c).targets[0], ast.Name) else None
         reaches = any(isinstance(r.ast.exc, ast.Name) and r.ast.exc.id == var for r in raises) if var else isinstance(_stmt(c), ast.Raise)
@@ -292,8 +300,11 @@ def run(report, p):
             r5.instance(dh, call, f"verdict {var} = {norm(call)[:60]}")
             cn = g.node_for(call)
             ok = False
+            from sa.flow import defs_of
+
+            dd = defs_of(dh)
             for t in g.nodes:
-                if t.kind == "test" and any(isinstance(x, ast.Name) and x.id == var for x in ast.walk(t.ast)) and t.id in g.reachable_from([cn]):
+                if t.kind == "test" and any(isinstance(x, ast.Name) and x.id == var for x in ast.walk(t.ast)) and any(d[1] == cn.id for d in dd.reaching(var, t)):
                     for m, l in t.succ:
                         stops = {h.id for h in g.nodes if h.kind == "loop"} | {g.exit.id}
                         if m.id in map_signal_nodes or g.find_path(m, stops, avoid=map_signal_nodes) is None and m.id not in stops:
